@@ -1,6 +1,6 @@
 import SqlObjVerif.Lemmas.TxXLoop
 /-!
-Symbolic execution of the TRANSLATED `Transaction.commit`: `self._deletedCache` as a Lean list of
+Symbolic execution of the TRANSLATED `Transaction.commit`: `self._deletedCache` / `self._updatedCache` as a Lean list of
 (class, ids) entries (`delL`, `encDel_eq`, `mem_dKeys_delL`), the two list comprehensions (`commit_comp1/2`),
 `subCaches.extend(…)`, the nested loops by induction over the collected list (`commit_inner`, `commit_outer`: they
 compute `expireKeys` on the PARENT connection), `expireKeys_eq` + `AllIDsSpec` turn that into the hand model's
@@ -244,15 +244,26 @@ theorem dKeys_subsD (A : AllIDs) (dc : Bool) (t : Conn) : dKeys (subsD A dc t) =
 theorem dKeys_append (d1 d2 : D) : dKeys (d1 ++ d2) = dKeys d1 ++ dKeys d2 := by
   simp [dKeys, List.flatMap_append]
 
+/-- `[(x[0], x[1]) for x in self._updatedCache.items()]` -/
+theorem commit_comp3 (A : AllIDs) (call) (x : XT) (env : Env) (d : D) (hd : x.updv = encD d) :
+    Expr.eval (txIface A call) x env
+      (.comp 3 (.items (.selfAttr ["_updatedCache"])) (.pair (.idx (.var 3) 0) (.idx (.var 3) 1)))
+    = .ok (encD d) := by
+  simp [Expr.eval, txGetAttr, hd]
+  rw [encD, mapR_map_ok _ _ encEntry]
+  intro e _
+  simp [Env.get_put_self, encEntry]
+
 /-- the keys `commit` walks are exactly the hand model's `reached` -/
 theorem commitKeys_spec (A : AllIDs) (s : Tx.St) (hA : AllIDsSpec A s.dc s.t) (k : Key) :
-    (dKeys (subsD A s.dc s.t ++ delL s.del)).contains k = s.reached k := by
-  rw [dKeys_append, List.contains_eq_mem, dKeys_subsD]
+    (dKeys ((subsD A s.dc s.t ++ delL s.del) ++ delL s.upd)).contains k = s.reached k := by
+  rw [dKeys_append, dKeys_append, List.contains_eq_mem, dKeys_subsD]
   have h1 := subKeys_spec A s.dc s.t hA k
   have h2 := mem_dKeys_delL s.del k
+  have h3 := mem_dKeys_delL s.upd k
   simp only [List.contains_eq_mem] at h1
   simp only [St.reached, List.mem_append, List.contains_eq_mem, ← h1]
-  simp [h2]
+  simp [h2, h3]
 
 /-- like `txrun2`, but list comprehensions stay folded (the `commit_comp*` lemmas rewrite them) -/
 macro "txrun3" : tactic => `(tactic|
@@ -266,25 +277,28 @@ theorem commitX_eq (A : AllIDs) (s : Tx.St) (hA : AllIDsSpec A s.dc s.t) (lo : L
       .ret (img (opCommit s close).1 (if close && !s.obsolete then lo.release else lo)) .none := by
   unfold commitX commitProg commit_nlocals opCommit
   cases hob : s.obsolete
-  · have hexp : expireKeys s.dc s.p (dKeys (subsD A s.dc s.t ++ delL s.del)) = s.commitExpire := by
+  · have hexp : expireKeys s.dc s.p (dKeys ((subsD A s.dc s.t ++ delL s.del) ++ delL s.upd)) = s.commitExpire := by
       rw [expireKeys_eq wf, commitExpire_eq]
       apply expireOn_congr
       intro k _
       exact commitKeys_spec A s hA k
-    have hmo := makeObsoleteX_eq A { s with db := s.view .T, ws := fun _ => none, lock := false, p := s.commitExpire } lo hob
-    simp [img, hob, encDel_eq, view_T_eq] at hmo
+    have hmo := makeObsoleteX_eq A { s with db := s.view .T, ws := fun _ => none, lock := false, p := s.commitExpire, upd := [] } lo hob
+    have hnil : encD (delL []) = Val.nil := rfl
+    simp [img, hob, encDel_eq, view_T_eq, hnil] at hmo
+    rw [List.append_assoc] at hexp
     have hc2 := fun call x env => commit_comp2 A call x env (delL s.del)
+    have hc3 := fun call x env => commit_comp3 A call x env (delL s.upd)
     cases hdb : lo.debug <;> cases close
     all_goals
       simp [PyTx.run, Block.exec, Stmt.exec, Cond.eval, eval_var, eval_const, eval_self, eval_selfAttr, eval_attrOf, eval_global,
         eval_query, eval_pair, eval_idx, eval_listOf, eval_items, eval_methodType, eval_emptyList, Exprs.eval,
         Env.get, St.setVar, St.setOpt, afterCall, Res.toCall, pyBool, zipKw, ExcPat.catches, txGetAttr, txSetAttr, txAttrOf,
-        txCall0, txCall1, txCallFn, img, Val.isNone, isListVal, commit_comp1, hc2, encDel_eq, XT.lowCommit, vlAppend_encD, hob, hdb]
-      rw [← List.map_append]
+        txCall0, txCall1, txCallFn, img, Val.isNone, isListVal, commit_comp1, hc2, hc3, encDel_eq, XT.lowCommit, vlAppend_encD, hob, hdb]
+      rw [← List.map_append, ← List.map_append]
       generalize hF : forLoop _ _ _ = r
       obtain ⟨a4, a5, a6, a7, rfl⟩ := commit_outer' A hF
       clear hF
-      simp [hexp, hmo, viewT_eq, view_T_eq]
+      simp [hexp, hmo, viewT_eq, view_T_eq, hnil]
   · txrun2
 
 end SqlObjVerif.Tx
